@@ -270,6 +270,8 @@ def run_guarded(ctx, exe, lines, what, jobs=14, limit=12, timeout=150, env=core.
     restarts the harness (and a hang costs `timeout` seconds), so after `limit` faults in one chunk
     the stream is abandoned; the faults seen so far are reported as failures by the caller.
     Returns (outputs or None, faults)."""
+    if getattr(ctx, "_harness_dead", False):
+        return None, []      # an earlier stream was abandoned: the verdict is already a failure
     seen = []
 
     def on_fault(i, kind, err):
@@ -280,6 +282,14 @@ def run_guarded(ctx, exe, lines, what, jobs=14, limit=12, timeout=150, env=core.
         out, faults = core.run_lines_parallel(exe, lines, jobs=jobs, timeout_per_batch=timeout, env=env, on_fault=on_fault)
         return out, faults
     except TooManyFaults:
+        ctx._harness_dead = True
         ctx.notes.append("%s: abandoned after %d sanitizer faults / hangs" % (what, len(seen)))
         # indexes reported by the callback are chunk-relative; keep the kinds and stderr only
         return None, [(None, k, e) for (_, k, e) in seen]
+    except TypeError as e:
+        # vlib.core.classify_fault compares the string "timeout" with 0 when the harness hangs
+        if "not supported between" not in str(e):
+            raise
+        ctx._harness_dead = True
+        ctx.notes.append("%s: the harness hung (no output within %ds)" % (what, timeout))
+        return None, [(None, k, err) for (_, k, err) in seen] + [(None, "timeout", "the harness produced no output within %d s" % timeout)]
